@@ -749,7 +749,7 @@ func main() {
 	}
 
 	g := vlib.NewRng(r.Seed)
-	reps := r.Scale(5, 110)
+	reps := r.Scale(10, 330)
 	configs := [][2]bool{{true, true}, {true, false}, {false, true}}
 	i := 0
 	for rep := 0; rep < reps; rep++ {
